@@ -110,6 +110,15 @@ def cases(tier, seed, shard, nshards):
                         k += 1
                         if k % nshards == shard:
                             yield {"d": d, "kind": kind, "s0": s0, "second": second, "s1": "plain", "third": False, "samecol": True, "order": order}
+    import itertools as _it
+    for d in DIALECT_CLASSES:
+        for layout in AUTO_LAYOUTS:
+            for shapes in _it.product(AUTO_SHAPES, repeat=len(layout)):
+                k += 1
+                if k % nshards == shard:
+                    if tier == "quick" and len(layout) == 4 and (k // nshards) % 4:
+                        continue
+                    yield {"k": "auto", "d": d, "layout": list(layout), "shapes": list(shapes)}
     rnd = random.Random("C11:%d:%d" % (seed, shard))
     n = (40000 if tier == "quick" else 600000) // nshards
     for i in range(n):
@@ -272,7 +281,103 @@ def qualifier_of(toks, i):
     return None
 
 
+AUTO_SHAPES = ["sub", "nested", "nested3", "setop", "setop-of-nested"]
+AUTO_LAYOUTS = [("from", "from"), ("from", "join"), ("from", "from", "from"), ("from", "from", "join"), ("from", "join", "join"),
+                ("from", "join", "from"), ("from", "join", "join", "join")]
+
+
+def auto_source(Q, shape, i):
+    """An un-aliased derived source whose marker column is m<i> (its innermost table is base<i>)."""
+    T = R()["Table"]
+    b = T("base%d" % i)
+    flat = Q.from_(b).select(b.field("m%d" % i), b.id)
+    if shape == "sub":
+        return flat
+    if shape == "nested":
+        return Q.from_(flat).select(flat.field("m%d" % i), flat.id)
+    if shape == "nested3":
+        mid = Q.from_(flat).select(flat.field("m%d" % i), flat.id)
+        return Q.from_(mid).select(mid.field("m%d" % i), mid.id)
+    b2 = T("base%d" % i)
+    if shape == "setop":
+        return flat.union(Q.from_(b2).select(b2.field("m%d" % i), b2.id))
+    inner = Q.from_(b2).select(b2.field("m%d" % i), b2.id)
+    return Q.from_(inner).select(inner.field("m%d" % i), inner.id).union(flat)
+
+
+def run_auto(case, mon):
+    """Several un-named derived sources in one statement: the automatic names sq<n> must be pairwise different and every
+    reference must carry the name of the source it was attached to (checked lexically and by SQLite's name resolution)."""
+    r = R()
+    d = case["d"]
+    Q = r[d]
+    fam = DIALECT_OF[d] if d != "Query" else "generic"
+    try:
+        srcs = [auto_source(Q, sh, i) for i, sh in enumerate(case["shapes"])]
+        q = None
+        for i, (src, how) in enumerate(zip(srcs, case["layout"])):
+            if i == 0:
+                q = Q.from_(src)
+            elif how == "from":
+                q = q.from_(src)
+            else:
+                q = q.join(src).on(src.id == srcs[0].id)
+        q = q.select(*[s_.field("m%d" % i) for i, s_ in enumerate(srcs)])
+        for i, s_ in enumerate(srcs[1:], 1):
+            if case["layout"][i] == "from":
+                q = q.where(s_.id == srcs[0].id)
+        sql = q.get_sql(contexts()[d])
+    except Exception as e:
+        mon.count("auto_alias_unbuildable")
+        mon.add("unbuildable", "auto:%s" % type(e).__name__)
+        return
+    mon.count("auto_alias_statements")
+    aliases = [getattr(s_, "alias", None) for s_ in srcs]
+    key = "%s:%s" % ("+".join(case["layout"]), fam)
+    if None in aliases or len(set(aliases)) != len(aliases):
+        mon.violation("auto-alias:duplicate-name:%s" % "+".join(sorted(set(case["shapes"]))), "the un-named sources of one statement were named %s: %r" % (aliases, sql[:300]), {"case": case})
+        return
+    toks = tokenize(sql, d)
+    depth, depths = 0, []
+    for tk in toks:
+        if tk.kind == "PUNCT" and tk.text == "(":
+            depth += 1
+        elif tk.kind == "PUNCT" and tk.text == ")":
+            depth -= 1
+        depths.append(depth)
+    for i, al in enumerate(aliases):
+        col = "m%d" % i
+        for k_, tk in enumerate(toks):
+            # references of the outer statement itself (depth 0): nested levels have name scopes of their own
+            if depths[k_] == 0 and tk.kind == "IDENT" and tk.value == col and k_ >= 2 and toks[k_ - 1].text == "." and toks[k_ - 2].kind == "IDENT":
+                qual = toks[k_ - 2].value
+                if qual in aliases and qual != al:
+                    mon.violation("auto-alias:reference-to-other-source:%s" % key, "column %s of source %d (%s) is written %s.%s: %r" % (col, i, al, qual, col, sql[:300]))
+                    return
+                mon.count("references_checked")
+    if d in ("SQLLiteQuery", "Query"):
+        con = sqlite3.connect(":memory:")
+        try:
+            con.setconfig(sqlite3.SQLITE_DBCONFIG_DQS_DML, False)
+            for i in range(len(srcs)):
+                con.execute('CREATE TABLE base%d(id, m%d)' % (i, i))
+            con.execute("EXPLAIN " + sql)
+            mon.count("sqlite_prepares")
+        except sqlite3.Error as e:
+            msg = str(e)
+            if "ambiguous" in msg or "no such column" in msg:
+                mon.violation("auto-alias:engine:%s:%s" % ("ambiguous" if "ambiguous" in msg else "unresolved", key), "SQLite: %s for %r" % (msg, sql[:300]))
+                return
+            mon.count("sqlite_other_errors")
+            mon.add("sqlite_other_errors", msg[:60])
+        finally:
+            con.close()
+    mon.nontrivial(case)
+
+
 def run_case(case, mon):
+    if case.get("k") == "auto":
+        return run_auto(case, mon)
     r = R()
     d = case["d"]
     fam = DIALECT_OF[d] if d != "Query" else "generic"
